@@ -342,6 +342,7 @@ def rule_rg5(ctx) -> None:
 
 
 def check(ctx) -> None:
+    rule_rg9(ctx)
     rule_rg5(ctx)
     rule_rg1_rg2(ctx)
     rule_rg3(ctx)
@@ -357,6 +358,47 @@ def check(ctx) -> None:
     from . import c02
 
     c02.rule_t2(ctx, Pipeline(ctx), "C15-Rg8")
+
+
+def rule_rg9(ctx) -> None:
+    """Digits at the end of a bracket atom's text are not only the map number: `[SiH3]`, `[Ca+2]`, `[13CH3]` end in a
+    hydrogen count or a charge.  Removing the map by stripping trailing digit *characters* (`rstrip("0123456789")`) -
+    instead of deleting the `:<digits>` field - eats those digits whenever the atom carries no map."""
+    ctx.rule("C15-Rg9", "no digit characters are stripped off the text of a bracket atom on the map-removal path", 0)
+    prog = ctx.prog
+    root = prog.func("synrbl.SynUtils.chem_utils.remove_atom_mapping")
+    funcs = {root.qualname}
+    # callbacks handed to re.sub / pattern.sub and helpers called from them
+    work = [root]
+    while work:
+        g = work.pop()
+        for c in calls(g):
+            cands = list(c.args) + [k.value for k in c.keywords]
+            tgt = ctx.res.resolve_callee(c, g)
+            if tgt and tgt[0] == "func" and tgt[1] in prog.functions and tgt[1].startswith("synrbl.") and tgt[1] not in funcs:
+                funcs.add(tgt[1])
+                work.append(prog.functions[tgt[1]])
+            for a in cands:
+                if isinstance(a, (ast.Name, ast.Attribute)):
+                    tv = ctx.res.resolve_value(a, g)
+                    if tv and tv[0] == "func" and tv[1] in prog.functions and tv[1] not in funcs:
+                        funcs.add(tv[1])
+                        work.append(prog.functions[tv[1]])
+    n = 0
+    for q in sorted(funcs):
+        g = prog.functions[q]
+        for c in calls(g):
+            if isinstance(c.func, ast.Attribute) and c.func.attr in ("rstrip", "strip", "lstrip") and c.args:
+                a = c.args[0]
+                txt = a.value if isinstance(a, ast.Constant) and isinstance(a.value, str) else None
+                if txt is None and unparse(a).split(".")[-1] == "digits":
+                    txt = "0123456789"
+                if txt and any(ch.isdigit() for ch in txt):
+                    n += 1
+                    ctx.instance("C15-Rg9", "%s: %s" % (g.name, unparse(c)[:60]), g.loc(c), ok=False)
+                    ctx.finding("C15-Rg9", "chem_utils.%s:digits-stripped-from-bracket-atom" % g.name, g.loc(c), "%s strips digit characters (%s) off bracket-atom text: for an atom without map number the trailing digits are its hydrogen count or charge ([SiH3] -> [SiH], [Ca+2] -> [Ca+]), so an unmapped molecule is changed" % (g.name, unparse(c)[:50]))
+    if n == 0:
+        ctx.instance("C15-Rg9", "no digit-stripping call in %d function(s) of the map-removal path" % len(funcs), root.loc(), ok=True)
 
 
 def rule_rg7(ctx) -> None:
